@@ -23,7 +23,7 @@ RULE = (
     "generated streams / single messages / structures written as files in every input format (binary, hex, pcapng, "
     "swtpm-log, auto) and converted with every output format (pretty, events, binary) as a stream, with --type T and with "
     "--type Response --command C; stdin and several files; malformed files (warn-mode output); misspelt type / command "
-    "names and Response without a command; `type` on single messages; `example` for command codes and type names; one "
+    "names and Response without a command; command names (one per first letter + a seed-dependent window; thorough all 117) each accepted for a failed response and refused when the first letter is doubled / dropped or '_', '2', 'x' is added; `type` on single messages; `example` for command codes and type names; one "
     "evaluation = one CLI invocation; distinct = distinct (sub-command, input format, output format, type choice, outcome)"
 )
 ASSUMPTIONS = [
@@ -56,6 +56,21 @@ def plan(tier, seed):
         ex = [ccs[i::16] for i in range(16)] + [names[i::4] for i in range(4)]
     for i, group in enumerate(ex):
         shards.append(dict(name=f"example{i}", kind="example", items=group))
+    # command names: quick = one name per distinct first letter plus a window that moves with the seed, thorough = all
+    names = sorted(layout.pinned()["command_codes"])
+    if q:
+        first = {}
+        for nme in names:
+            first.setdefault(nme[0], nme)
+        rest = [nme for nme in names if nme not in first.values()]
+        k = (int(seed) * 7) % max(1, len(rest))
+        pick = sorted(first.values()) + (rest + rest)[k : k + 6]
+        nsh = 4
+    else:
+        pick = names
+        nsh = 8
+    for i in range(nsh):
+        shards.append(dict(name=f"names{i}", kind="names", names=pick[i::nsh], all_variants=not q))
     return shards
 
 
@@ -234,7 +249,30 @@ def refuse_shard(shard, rec, rng, tmp):
         rec.violation("convert-status", "control", f"Response with --command Startup was not decoded: status {rc}, stderr {se[-300:]}", dict(kind="refuse", args=["convert", "--in", "binary", "--type", "Response", "--command", "Startup"]))
 
 
-def check_refused(rec, args, label, needle):
+def names_shard(shard, rec, rng, tmp):
+    """Every command name the shard is given must be accepted by `convert --type Response --command NAME` (a failed response
+    decodes under any code: the output with --out binary is the hex of the file), and near-misses of it - first letter
+    doubled, a leading '_' or '2', first letter dropped, a trailing 'x' - must be refused."""
+    P = layout.pinned()
+    data = bytes.fromhex("80010000000a00000101")
+    pr = write(tmp, "failed.bin", data)
+    known = set(P["command_codes"])
+    for name in shard["names"]:
+        rc, so, se = cli(["convert", "--in", "binary", "--out", "binary", "--type", "Response", "--command", name, pr])
+        rec.case(("name-accepted", name, rc), nontrivial=True)
+        rec.count("command_names_accepted")
+        got = "".join(norm(so).split())
+        if rc != 0 or got != data.hex():
+            rec.violation("convert-status", "known-command-name", f"tpmstream convert --in binary --out binary --type Response --command {name} <failed response>: status {rc}, stdout {so[:80]!r}, "
+                                                                  f"stderr {se[-200:]!r}; expected status 0 and {data.hex()}", dict(kind="names", names=[name]))
+        variants = [name[0] + name, "_" + name, "2" + name, name[1:], name + "x"]
+        for v in (variants if shard.get("all_variants") else [variants[rng.randrange(len(variants))], variants[(len(name)) % len(variants)]]):
+            if v in known or not v:
+                continue
+            check_refused(rec, ["convert", "--in", "binary", "--type", "Response", "--command", v, pr], "unknown-command", "Unknown", replay=dict(kind="names", names=[name], all_variants=True))
+
+
+def check_refused(rec, args, label, needle, replay=None):
     rc, so, se = cli(args)
     rec.case(("refuse", label, rc), nontrivial=True)
     rec.count(f"refused_{label}")
@@ -248,7 +286,7 @@ def check_refused(rec, args, label, needle):
     elif label != "response-without-command" and "Did you mean" not in se:
         why = f"no suggestion on stderr: {se[-200:]!r}"
     if why:
-        rec.violation("refuse", label, f"tpmstream {' '.join(args)}: {why}", dict(kind="refuse-args", args=args, label=label, needle=needle))
+        rec.violation("refuse", label, f"tpmstream {' '.join(args)}: {why}", replay or dict(kind="refuse-args", args=args, label=label, needle=needle))
 
 
 def expected_type_listing(data):
@@ -409,7 +447,7 @@ def run_shard(shard, rec):
     rng = random.Random(f"{shard.get('seed', 0)}:C19:{shard['name']}")
     tmp = tempfile.mkdtemp(prefix="vt_c19_")
     try:
-        {"convert": convert_shard, "refuse": refuse_shard, "type": type_shard, "example": example_shard}[shard["kind"]](shard, rec, rng, tmp)
+        {"convert": convert_shard, "refuse": refuse_shard, "type": type_shard, "example": example_shard, "names": names_shard}[shard["kind"]](shard, rec, rng, tmp)
     finally:
         shutil.rmtree(tmp, ignore_errors=True)
     rec.sample(dict(shard=shard["name"], counters=dict(rec.counters)))
@@ -418,7 +456,7 @@ def run_shard(shard, rec):
 def finish(m, tier):
     inc = []
     for k in ("convert_in_binary", "convert_in_hex", "convert_in_pcapng", "convert_in_swtpm-log", "convert_in_auto", "convert_out_pretty", "convert_out_events",
-              "convert_out_binary", "refused_unknown-type", "refused_unknown-command", "refused_response-without-command", "type_runs", "example_runs", "example_blocks_redecoded"):
+              "convert_out_binary", "refused_unknown-type", "refused_unknown-command", "refused_response-without-command", "command_names_accepted", "type_runs", "example_runs", "example_blocks_redecoded"):
         if not m["counters"].get(k):
             inc.append(f"no {k}")
     return dict(inconclusive=inc)
@@ -435,6 +473,8 @@ def replay(r, rec):
             else:
                 p = write(tmp, "replay.dat", cont)
                 compare_convert(rec, "replay", r["args"] + [p], r["fmt_in"], r["fmt_out"], r["t"], cont, r.get("cc"), r)
+        elif k == "names":
+            names_shard(dict(names=r["names"], all_variants=True), rec, random.Random(0), tmp)
         elif k == "refuse-args":
             check_refused(rec, r["args"], r["label"], r["needle"])
         elif k == "type":
